@@ -84,9 +84,11 @@ namespace occa {
                         const int length,
                         const int valueIndex_) {
     if ((*c == '\0') || (length <= 0)) {
-      return;
+      // The empty key is stored in this node
+      valueIndex = -1;
+    } else {
+      nestedRemove(c, length, valueIndex_);
     }
-    nestedRemove(c, length, valueIndex_);
     decrementIndex(valueIndex_);
   }
 
@@ -116,13 +118,13 @@ namespace occa {
   }
 
   void trieNode::decrementIndex(const int valueIndex_) {
+    // This node first: the root holds the value index of the empty key
+    if (valueIndex > valueIndex_) {
+      --valueIndex;
+    }
     trieNodeMapIterator it = leaves.begin();
     while (it != leaves.end()) {
-      trieNode &leaf = it->second;
-      if (leaf.valueIndex > valueIndex_) {
-        --leaf.valueIndex;
-      }
-      leaf.decrementIndex(valueIndex_);
+      it->second.decrementIndex(valueIndex_);
       ++it;
     }
   }
